@@ -355,7 +355,7 @@ theorem urljoin_base_groups (h : Str) (hp : ∀ c ∈ h, pathChar c = true) (hse
   have hj : join ['/'] [[], groupsL, h] = '/' :: groupsL ++ '/' :: h := by simp [join]
   have hbp : splitOn ([] : Str) '/' = [[]] := splitOn_nil '/'
   simp only [t1, t2, hsw, hsp, hbp, ne_eq, not_true_eq_false, decide_false, Bool.not_true, Bool.or_self,
-    Bool.false_eq_true, if_false, Bool.and_false, reduceCtorEq, Bool.false_and, if_true,
+    Bool.false_eq_true, if_false, Bool.and_false, if_true,
     List.getLast?_singleton, hsegs, hres, hj]
   unfold urlunparse urlunsplit20
   rw [BASE_eq]
